@@ -16,7 +16,18 @@ TPump == /\ IsEv(l, "Pump")
                /\ e.err = x.err
                /\ e.stop_first = (x.sigs = 0)                 \* the first signal (and only a signal) stops the attack
          /\ l' = l + 1
-TNext == TReset \/ TPump
+\* the real attack behind the real pump (Pump!DrainsAfterOneSignal / ReturnReason on the composition): with at most one
+\* signal - also one that arrives while the attack is already winding down - the pump returns normally and has written
+\* the result of every hit that was started, each once
+TAttackPump == /\ IsEv(l, "AttackPump")
+               /\ LET e == Ev(l) IN
+                  /\ e.returned
+                  /\ (e.signals <= 1 =>
+                        /\ e.err = ""
+                        /\ e.encoded = [i \in 1..e.started |-> i - 1])
+                  /\ (e.signals = 0 => e.started = e.hits)
+               /\ l' = l + 1
+TNext == TReset \/ TPump \/ TAttackPump
 TSpec == TInit /\ [][TNext]_<<l>>
 HW == HighWater(l)
 =============================================================================
